@@ -21,6 +21,7 @@ import (
 	"net/http/httptest"
 	"net/url"
 	"os"
+	"regexp"
 	"runtime"
 	"sort"
 	"strconv"
@@ -66,7 +67,9 @@ type cvxRoute struct {
 	Code     cvxCode  `json:"code"`
 	Tpl      cvxTpl   `json:"tpl"`
 	Admitted bool     `json:"admitted"`
-	GHost    bool     `json:"ghost"` // the route's host is a pattern (*.<key>.test) that several request hosts match
+	GHost    bool     `json:"ghost"`    // the route's host is a pattern (*.<key>.test) that several request hosts match
+	Dead     bool     `json:"dead"`     // the route's instance refuses connections
+	HostForm string   `json:"hostform"` // "" | "port80" (host written with :80) | "none" (a route without a host)
 }
 
 type cvxReq struct {
@@ -93,6 +96,8 @@ type cvxReq struct {
 	AccessLog bool              `json:"accesslog"` // an access logger is configured
 	Hist      []cvxHistReq      `json:"hist"`      // C13 histories: the requests sent through the route one after the other
 	HostLabel string            `json:"hostlabel"` // first label of the requested host ("a" by default)
+	CfgGzip   bool              `json:"cfggzip"`   // proxy.gzip.contenttype = ^text/
+	NoGlob    bool              `json:"noglob"`    // glob.matching.disabled = true
 	Together  bool              `json:"together"`  // the requests of hist arrive simultaneously at a proxy that has served no redirect yet
 	PageHist  []string          `json:"pagehist"`  // no-route pages the registry delivers before the request ("" = page removed)
 	Flip      []string          `json:"flip"`      // no-route pages the registry alternates between while the request is answered
@@ -196,13 +201,26 @@ func cvxPage(tok string) string {
 	return ""
 }
 
+// cvxWire: the configuration of one proxy
+type cvxWire struct {
+	cfg       config.Proxy
+	accessLog bool
+	noGlob    bool // glob.matching.disabled
+	rTimeout  bool // proxy.responseheadertimeout = cvxRespTimeout
+	plainOnly bool // the proxy serves a plain listener only
+}
+
+const cvxRespTimeout = 300 * time.Millisecond
+
 // The wiring of the code under test is supplied by the package the harness is compiled into (package proxy:
 // common_wire_test.go, package main: c07_main_test.go):
 var (
 	// cvxMakeProxy builds the HTTP proxy handler the way main does (route.GetTable().Lookup, metrics handlers set)
-	cvxMakeProxy func(w *cvxWorld, cfg config.Proxy, accessLog bool) http.Handler
+	cvxMakeProxy func(w *cvxWorld, o cvxWire) http.Handler
 	// cvxListen serves h on one of fabio's own listeners (proxy.ListenAndServeHTTP); stop closes it
 	cvxListen func(addr string, h http.Handler, tc *tls.Config) (stop func(), err error)
+	// cvxStartFront (optional) brings up proxy AND listener the way fabio's start-up code does (main.startServers)
+	cvxStartFront func(w *cvxWorld, o cvxWire, tlsOn bool) (addr string, stop func(), ok bool)
 	// cvxDeliverPage hands a no-route page to fabio the way the registry does and returns when it is in effect
 	cvxDeliverPage func(page string) error
 )
@@ -354,6 +372,12 @@ func cvxForgedLines(cs *cvxCase, h string) []string {
 			return []string{"1.1.1.1, " + cvxForgedToken(cs, h, "peerpfx")}
 		case "dup":
 			return []string{"1.1.1.1, " + cvxPeerOf(cs)}
+		case "empty1":
+			return []string{""}
+		case "blank2":
+			return []string{"", "  "}
+		case "emptymix":
+			return []string{"", "1.1.1.1"}
 		case "truefirst":
 			return []string{cvxPeerOf(cs), "1.1.1.1"}
 		case "truelast":
@@ -392,6 +416,11 @@ func cvxHeaderSet(id string) []cvxHdrLine {
 			{"Content-Type", []string{"application/x-verif; charset=utf-8"}},
 			{"User-Agent", []string{"verif/1.0 (conformance)"}},
 			{"Referer", []string{"http://elsewhere.example/a%2Fb?x=%20"}},
+		}
+	case "gzipok":
+		return []cvxHdrLine{
+			{"Accept-Encoding", []string{"gzip"}},
+			{"X-Custom", []string{"v1"}},
 		}
 	case "expect":
 		return []cvxHdrLine{
@@ -449,6 +478,13 @@ func cvxFinalAnswer(kind string) (status int, hdr []cvxHdrLine) {
 				{"Content-Type", []string{"text/plain"}},
 				{"X-Up-Status", []string{n}},
 			}
+		}
+	}
+	if coding, ok := strings.CutPrefix(kind, "enc-"); ok { // an answer that already carries a content coding
+		return 200, []cvxHdrLine{
+			{"Content-Type", []string{"text/plain; charset=utf-8"}},
+			{"Content-Encoding", []string{coding}},
+			{"X-Up-Coding", []string{coding}},
 		}
 	}
 	switch kind {
@@ -600,6 +636,25 @@ func cvxTplText(t cvxTpl, self, upstream string) string {
 	return s
 }
 
+var (
+	cvxDeadOnce sync.Once
+	cvxDead     string
+)
+
+// cvxDeadAddr: an address nobody listens on (connections are refused)
+func cvxDeadAddr() string {
+	cvxDeadOnce.Do(func() {
+		l, err := net.Listen("tcp", "127.0.0.1:0")
+		if err != nil {
+			cvxDead = "127.0.0.1:1"
+			return
+		}
+		cvxDead = l.Addr().String()
+		l.Close()
+	})
+	return cvxDead
+}
+
 func cvxRouteCmds(key, rhost string, routes []cvxRoute, upAddr string) []string {
 	var out []string
 	for j, r := range routes {
@@ -607,8 +662,19 @@ func cvxRouteCmds(key, rhost string, routes []cvxRoute, upAddr string) []string 
 		if r.GHost {
 			host = cvxHostName(key, 1, rhost) // a pattern: a.<key>.test, b.<key>.test, ... all match
 		}
+		switch {
+		case r.HostForm == "port80":
+			host = cvxHostName(key, 0, "plain") + ":80"
+		case r.HostForm == "none":
+			host = ""
+		case j > 0 && routes[0].HostForm == "port80":
+			host = cvxHostName(key, 0, rhost) // the same host, written without the port
+		}
 		self := cvxHostName(key, 0, rhost)
 		dst := "http://" + upAddr + "/"
+		if r.Dead {
+			dst = "http://" + cvxDeadAddr() + "/"
+		}
 		if len(r.TQuery) > 0 {
 			dst += "?" + cvxQuery(r.TQuery)
 		}
@@ -663,6 +729,9 @@ type cvxCfgKey struct {
 	log             bool  // an access logger is configured
 	odd             bool  // header names configured in non-canonical spelling
 	v6              bool  // the front listens on ::1
+	gzip            bool  // proxy.gzip.contenttype = ^text/
+	noglob          bool  // glob.matching.disabled
+	rtimeout        bool  // proxy.responseheadertimeout = 300ms (the upstream of the case does not answer)
 	real            bool  // one of fabio's own listeners (proxy.ListenAndServeHTTP) instead of net/http/httptest
 	fresh           int64 // != 0: a proxy of its own for this case (it has served nothing before)
 }
@@ -684,17 +753,18 @@ type cvxWorld struct {
 	fmu    sync.Mutex
 	fronts map[cvxCfgKey]*cvxFront
 
-	client   *http.Client
-	upTr     *http.Transport
-	oldTable route.Table
-	oldHTML  string
-	oldLog   io.Writer
-	nroutes  int
-	errs     int64
-	retries  int64
-	noV6     bool // ::1 cannot be listened on: IPv6 cases are skipped (and counted)
-	certOnce sync.Once
-	certs    []tls.Certificate
+	client      *http.Client
+	upTr        *http.Transport
+	upTrTimeout *http.Transport // as upTr, with proxy.responseheadertimeout
+	oldTable    route.Table
+	oldHTML     string
+	oldLog      io.Writer
+	nroutes     int
+	errs        int64
+	retries     int64
+	noV6        bool // ::1 cannot be listened on: IPv6 cases are skipped (and counted)
+	certOnce    sync.Once
+	certs       []tls.Certificate
 }
 
 func cvxNewWorld() *cvxWorld {
@@ -727,6 +797,7 @@ func cvxNewWorld() *cvxWorld {
 	}
 	// like transport.NewTransport(nil) in main, with a larger idle pool
 	w.upTr = &http.Transport{Dial: (&net.Dialer{}).Dial, MaxIdleConnsPerHost: 64, MaxIdleConns: 1024}
+	w.upTrTimeout = &http.Transport{Dial: (&net.Dialer{}).Dial, MaxIdleConnsPerHost: 8, ResponseHeaderTimeout: cvxRespTimeout}
 	w.oldTable = route.GetTable()
 	w.oldHTML = noroute.GetHTML()
 	return w
@@ -797,6 +868,14 @@ func (w *cvxWorld) serveUpstream(rw http.ResponseWriter, r *http.Request) {
 	} else {
 		st, hd := cvxFinalAnswer("ok")
 		plan = &cvxPlan{Status: st, Hdr: hd, Body: 1}
+	}
+	if plan.Fault == "timeout" {
+		// no answer: wait until fabio gives up on the request (safety net: a minute)
+		select {
+		case <-r.Context().Done():
+		case <-time.After(time.Minute):
+		}
+		return
 	}
 	if plan.Fault != "" {
 		w.serveFault(rw, plan)
@@ -930,9 +1009,26 @@ func (w *cvxWorld) front(k cvxCfgKey) *cvxFront {
 	if k.sts {
 		cfg.STSHeader = config.STSHeader{MaxAge: cvxSTSMaxAge, Subdomains: true}
 	}
-	p := cvxMakeProxy(w, cfg, k.log)
+	if k.gzip {
+		cfg.GZIPContentTypes = regexp.MustCompile(`^text/`)
+	}
+	if k.rtimeout {
+		cfg.ResponseHeaderTimeout = cvxRespTimeout
+	}
+	wire := cvxWire{cfg: cfg, accessLog: k.log, noGlob: k.noglob, rTimeout: k.rtimeout, plainOnly: !k.tls}
 	var f *cvxFront
-	if k.real {
+	var p http.Handler
+	if cvxStartFront != nil && !k.v6 {
+		if addr, stop, ok := cvxStartFront(w, wire, k.tls); ok {
+			f = &cvxFront{stop: stop, addr: addr}
+		}
+	}
+	if f == nil {
+		p = cvxMakeProxy(w, wire)
+	}
+	if f != nil {
+		// brought up by fabio's own start-up code
+	} else if k.real {
 		// fabio's own listener; its registry of servers is keyed by the configured address: an explicit free port
 		var tc *tls.Config
 		if k.tls {
@@ -1011,7 +1107,8 @@ func (w *cvxWorld) tlsCerts() []tls.Certificate {
 func cvxFrontKey(cs *cvxCase) cvxCfgKey {
 	return cvxCfgKey{ip: cs.C.CfgIP, tlshdr: cs.C.CfgTLS, sts: cs.C.CfgSTS, nr: cs.C.NRStatus, tls: cs.C.TLS,
 		odd: cs.C.CfgSpell == "odd", v6: cs.C.Peer == "v6", log: cs.C.AccessLog,
-		real: cs.C.Sub == "conn" || cs.C.Together, fresh: cs.fresh}
+		real: cs.C.Sub == "conn" || cs.C.Together, fresh: cs.fresh,
+		gzip: cs.C.CfgGzip, noglob: cs.C.NoGlob, rtimeout: cs.C.Resp == "timeout"}
 }
 
 // ---------------------------------------------------------------- the client side
@@ -1087,7 +1184,8 @@ func (w *cvxWorld) doHTTPOnce(cs *cvxCase, id int64) (*cvxGot, error) {
 	if cs.C.TLS {
 		scheme = "https"
 	}
-	u := &url.URL{Scheme: scheme, Host: f.addr, Path: dec, RawPath: rawPath, RawQuery: rawQuery}
+	u := &url.URL{Scheme: scheme, Host: f.addr, Path: dec, RawPath: rawPath, RawQuery: rawQuery,
+		ForceQuery: len(cs.C.Query) > 0 && rawQuery == ""} // a query that is present and empty: "/x?"
 	if u.EscapedPath() != rawPath {
 		return nil, fmt.Errorf("harness: cannot send raw path %q (would be sent as %q)", rawPath, u.EscapedPath())
 	}
@@ -1188,7 +1286,7 @@ func (w *cvxWorld) doWSOnce(cs *cvxCase, id int64) (*cvxGot, error) {
 	conn.SetDeadline(time.Now().Add(60 * time.Second)) // safety net only
 	rawPath, rawQuery := cvxRawTarget(cs)
 	target := rawPath
-	if rawQuery != "" {
+	if len(cs.C.Query) > 0 {
 		target += "?" + rawQuery
 	}
 	upg := "websocket"
@@ -1290,6 +1388,17 @@ func cvxCheckHdr(cs *cvxCase, h string, exp cvxHdrExp, got []string) string {
 		}
 	case "list":
 		if g := cvxSplitList(got); !cvxSameValsTok(g, want, exp.Vals) {
+			return fmt.Sprintf("got elements %q (from %q), want %q", g, got, want)
+		}
+	case "listne":
+		// empty client lines may leave empty elements behind: they are not judged, the rest is
+		var g []string
+		for _, e := range cvxSplitList(got) {
+			if e != "" {
+				g = append(g, e)
+			}
+		}
+		if !cvxSameValsTok(g, want, exp.Vals) {
 			return fmt.Sprintf("got elements %q (from %q), want %q", g, got, want)
 		}
 	case "listdup":
@@ -1437,7 +1546,7 @@ func cvxRawGet(conn net.Conn, br *bufio.Reader, cs *cvxCase, id int64) (*cvxGot,
 	conn.SetDeadline(time.Now().Add(60 * time.Second)) // safety net only
 	rawPath, rawQuery := cvxRawTarget(cs)
 	target := rawPath
-	if rawQuery != "" {
+	if len(cs.C.Query) > 0 {
 		target += "?" + rawQuery
 	}
 	var b bytes.Buffer
